@@ -23,12 +23,12 @@ OWNER_FUNCS = {("model", "Population.initialize_compartments"), ("parameters", "
 def run(ctx):
     repo = ctx.repo
     T = K.types(repo)
-    r01a(ctx, repo, T)
-    r01b(ctx, repo, T)
-    r01c(ctx, repo, T)
-    r01d(ctx, repo, T)
-    r01e(ctx, repo, T)
-    r01f(ctx, repo, T)
+    ctx.each(r01a, ctx, repo, T)
+    ctx.each(r01b, ctx, repo, T)
+    ctx.each(r01c, ctx, repo, T)
+    ctx.each(r01d, ctx, repo, T)
+    ctx.each(r01e, ctx, repo, T)
+    ctx.each(r01f, ctx, repo, T)
 
 
 # ---------------------------------------------------------------------------------------------- R01a
